@@ -258,7 +258,12 @@ def gen_pipe(rnd, depth, allow_inf=False):
     p = source() if depth == 0 or rnd.random() < 0.15 else None
     if p is None:
         kind = rnd.choice(["chain", "chain", "chain", "concat", "flatmap"])
-        if kind == "concat":
+        if rnd.random() < 0.08:
+            kind = "reuse"      # one source VALUE subscribed more than once inside a program (sequentially: twice; overlapping: flatmap self)
+        if kind == "reuse":
+            q = gen_pipe(rnd, min(depth - 1, 2))
+            p = f"(twice {q})" if rnd.random() < 0.4 else f"(flatmap self {rnd.choice([10, 100, -1, 0])} {q})"
+        elif kind == "concat":
             members = [gen_pipe(rnd, depth - 1) if rnd.random() < 0.7 else "(src 0)" for _ in range(rnd.randint(2, 4) if rnd.random() < 0.85 else rnd.randint(5, 7))]
             p = "(concat " + " ".join(members) + ")"
         elif kind == "flatmap":
@@ -297,7 +302,9 @@ def run_pipelines(prop, tier, seed, ctx):
     fixed = ["(src 0)", "(src 3)", "(take 2 (inf 7))", "(take 3 (filter mod 2 0 (src 4)))", "(filter mod 2 1 (src 6 2))",
              "(concat (src 2) (concat (src 0) (src 3)))", "(concat (src 2) (src 0) (src 3))", "(concat (src 0) (src 0) (src 2) (src 0) (src 1))", "(flatmap rep 2 (src 3))", "(take 4 (flatmap tri 2 (src 9)))",
              "(skip 2 (scan lin 2 1 (map mul 3 (src 6))))", "(take 2 (concat (take 1 (inf 3)) (src 4)))",
-             "(flatmap rep 0 (src 4))", "(take 3 (flatmap rep 2 (take 5 (inf 1))))"]
+             "(flatmap rep 0 (src 4))", "(take 3 (flatmap rep 2 (take 5 (inf 1))))",
+             "(flatmap self 10 (scan lin 1 0 (src 3)))", "(twice (take 2 (skip 1 (src 5))))", "(flatmap self 10 (take 2 (skip 1 (src 5))))",
+             "(take 5 (flatmap self 100 (concat (src 2) (take 1 (src 3 7)))))", "(twice (flatmap self 10 (filter mod 2 1 (src 4))))"]
     progs.update(fixed)
     while len(progs) < N:
         progs.add(gen_pipe(rnd, rnd.randint(0, 3 if tier == "quick" else 4), rnd.random() < 0.35))
@@ -314,6 +321,7 @@ def run_pipelines(prop, tier, seed, ctx):
     res["coverage"]["distinct_nontrivial"] = sum(1 for p in progs if p.count("(") >= 3)
     res["coverage"]["nested_programs"] = sum(1 for p in progs if "concat" in p or "flatmap" in p)
     res["coverage"]["unbounded_inputs"] = sum(1 for p in progs if "(inf" in p)
+    res["coverage"]["programs_reusing_a_source_value"] = sum(1 for p in progs if "(twice" in p or "(flatmap self" in p)
     res["coverage"]["programs_run_on_composed_machines"] = sum(j.count("\nMACH") + (1 if j.startswith("MACH") else 0) for _, j in outs)
     res["coverage"]["of_which_in_the_domain_of_prog3_correct2"] = sum(j.count("\nMTHM") for _, j in outs)
     for rec, judged in outs:
@@ -329,7 +337,7 @@ def run_pipelines(prop, tier, seed, ctx):
             elif l.startswith("BADLINE"):
                 res["mismatches"].append(l)
     res["coverage"]["samples"] = [dict(run=l) for l in outs[0][0].splitlines()[1:3]]
-    res["coverage"]["rule"] = ("random pull pipelines (seeded): nesting depth <= 3 (4), up to 3 unary stages per level, concat! and map-then-flatten, inputs empty / "
+    res["coverage"]["rule"] = ("random pull pipelines (seeded): nesting depth <= 3 (4), up to 3 unary stages per level, concat! and map-then-flatten, one source value used twice (sequentially / as outer and inner of a flatten), inputs empty / "
                                "short / long / unbounded under a take; each runs on the real crate twice (for_each-like probe; real for_each) with counting "
                                "iterators; compared with the list function and the demand-driven model `sem` (outputs, completion, iterator advances); every "
                                "program without `flatmap` is also run on the NETWORK of operator machines — stages wired by `compose`, `concat!` members plugged "
